@@ -24,7 +24,7 @@ def display_small_documents(seed):
     t2t = _r.real_module('yalafi.tex2txt')
     parameters = _r.real_module('yalafi.parameters')
     rows = ['a = b', 'a &= b + c', '&\\le c', 'x^2', 'a + b &= c']
-    tails = ['', '\\label{q}', '\\nonumber', ' \\\\']
+    tails = ['', '\\label{q}', '\\nonumber', ' \\\\', '\\,', '\\quad ']
     n, fails = 0, []
 
     def fail(**kw):
